@@ -241,8 +241,124 @@ pub fn exec(op: &str, a: &[String]) -> Option<Reply> {
             let (rule, aliases, input) = (s_of_hex(rule)?, parse_aliases(aliases)?, s_of_hex(input)?);
             Some(Reply::plain(do_vrl(&rule, &aliases, &input)))
         }
+        ("o.c32.lit", [lit, input]) => {
+            let (lit, input) = (s_of_hex(lit)?, s_of_hex(input)?);
+            let r = do_match(&esc(&lit), &BTreeMap::new(), &input);
+            Some(Reply::oracle(vec![match_obs(&r)]))
+        }
+        ("o.c32.cyc", [rule, aliases]) => {
+            let (rule, aliases) = (s_of_hex(rule)?, parse_aliases(aliases)?);
+            let direct = match compile(&rule, &aliases) {
+                Err(_) => "panic",
+                Ok(Err(RuleError::CircularDependencyInAliasDefinition(_))) => "circular",
+                Ok(Err(_)) => "other",
+                Ok(Ok(_)) => "accepted",
+            };
+            // the same rule through a compiled VRL program: rejected at compile time iff rejected here
+            let via_vrl = do_vrl(&rule, &aliases, "");
+            let vrl_rejects = via_vrl == "compile-error" || via_vrl == "panic";
+            let obs = if vrl_rejects == (direct != "accepted") { direct.to_string() } else { format!("vrl-disagrees:{via_vrl}") };
+            Some(Reply::oracle(vec![obs]))
+        }
+        ("o.c32.cap", [items, aliases]) => {
+            let (items, aliases) = (parse_items(items)?, parse_aliases(aliases)?);
+            let (rule, input) = build_rule(&items);
+            let r = do_match(&rule, &aliases, &input);
+            let mut f = r.split('\t');
+            Some(Reply::oracle(match (f.next(), f.next()) {
+                (Some("ok"), Some(v)) => vec!["ok".to_string(), v.to_string()],
+                (Some(x), _) => vec![x.split(':').next().unwrap_or("").to_string()],
+                _ => vec!["err".to_string()],
+            }))
+        }
+        ("o.c32.anch", [items, aliases, input]) => {
+            let (items, aliases, input) = (parse_items(items)?, parse_aliases(aliases)?, s_of_hex(input)?);
+            let (rule, _) = build_rule(&items);
+            let r = do_match(&rule, &aliases, &input);
+            Some(Reply::oracle(vec![match_obs(&r)]))
+        }
         _ => None,
     }
+}
+
+fn match_obs(r: &str) -> String {
+    if r == "nomatch" {
+        "n".into()
+    } else if r.starts_with("ok\t") {
+        "m".into()
+    } else {
+        r.split(':').next().unwrap_or("").to_string()
+    }
+}
+
+/// items of an oracle rule (see lean/VrlModel/Driver/C32.lean)
+enum Item {
+    Lit(String),
+    Verb(String),
+    Ph { name: String, dest: String, filter: String, sample: String },
+}
+
+fn parse_items(s: &str) -> Option<Vec<Item>> {
+    if s == "-" {
+        return Some(vec![]);
+    }
+    s.split(' ')
+        .map(|t| {
+            let f: Vec<&str> = t.split(':').collect();
+            match f.as_slice() {
+                ["L", h] => Some(Item::Lit(s_of_hex(h)?)),
+                ["T", h] => Some(Item::Verb(s_of_hex(h)?)),
+                ["P", n, d, fl, smp] => {
+                    Some(Item::Ph { name: s_of_hex(n)?, dest: s_of_hex(d)?, filter: s_of_hex(fl)?, sample: s_of_hex(smp)? })
+                }
+                _ => None,
+            }
+        })
+        .collect()
+}
+
+fn show_items(items: &[Item]) -> String {
+    if items.is_empty() {
+        return "-".into();
+    }
+    items
+        .iter()
+        .map(|i| match i {
+            Item::Lit(s) => format!("L:{}", hx(s)),
+            Item::Verb(s) => format!("T:{}", hx(s)),
+            Item::Ph { name, dest, filter, sample } => format!("P:{}:{}:{}:{}", hx(name), hx(dest), hx(filter), hx(sample)),
+        })
+        .collect::<Vec<_>>()
+        .join(" ")
+}
+
+/// rule text and the input assembled from literal texts and samples.
+fn build_rule(items: &[Item]) -> (String, String) {
+    let (mut rule, mut input) = (String::new(), String::new());
+    for i in items {
+        match i {
+            Item::Lit(s) => {
+                rule.push_str(&esc(s));
+                input.push_str(s);
+            }
+            Item::Verb(s) => rule.push_str(s),
+            Item::Ph { name, dest, filter, sample } => {
+                rule.push_str("%{");
+                rule.push_str(name);
+                if !dest.is_empty() || !filter.is_empty() {
+                    rule.push(':');
+                    rule.push_str(dest);
+                }
+                if !filter.is_empty() {
+                    rule.push(':');
+                    rule.push_str(filter);
+                }
+                rule.push('}');
+                input.push_str(sample);
+            }
+        }
+    }
+    (rule, input)
 }
 
 // ---------------------------------------------------------------------------------------------
@@ -466,7 +582,8 @@ const MALFORMED: &[&str] = &[
     "%{a:x.}", "%{a:x..y}", "%{a.b.c}", "%{a.}", "%{.a}", "%{1a}", "%{a:1}", "%{a:x:f(1,\"s\",g(2),true,null,.5)}", "%{a:x y}", "%{a-b}", "%{a:x-y}", "%{a:@x}",
     "%{$a}", "%%{a}", "%{a}%{a}", "%{a}}", "{%{a}", "%{a:x:nullIf(\"}\")}", "%{a:x:nullIf(\"\\\"\")}", "%{a:x:nullIf(\"\\\\\")}", "%{a:x:nullIf(\"\\\\\")} \"",
     "%{a:x:nullIf(\"q)}", "%{a:true}", "%{true}", "%{a:x:scale(1.5e1)}", "%{a:x:scale(1e)}", "%{a:x:scale(99999999999999999999)}", "%{a:x:scale(1.2.3)}",
-    "%{a:x:scale(+1)}", "%{a:x:scale(1)", "%{a:x:é}", "%{é}", "%{a:é}", "%{a:x:nullIf(\"é→\")}", "%{a=b}", "\\%{a}", "%\\{a}",
+    "%{a:x:scale(+1)}", "%{a:x:scale(1)", "%{a:x:é}", "%{a:x:f(g(1,h(2)),3)}", "%{a:x:f(g(,))}", "%{a:x:f(g(1,),)}", "%{a:x:f(a.b(1))}", "%{a:x:f(a.)}",
+    "%{a:x:scale(g(1))}", "%{a:x:f(1 2)}", "%{a:x:f((1))}", "%{a(1)(2)}", "%{a:x:f(g(1)}", "%{a:x:f(g(1)))}", "%{a:x:f(a.b.c,d)}", "%{a(1):x}", "%{a():x:scale(2,g())}", "%{é}", "%{a:é}", "%{a:x:nullIf(\"é→\")}", "%{a=b}", "\\%{a}", "%\\{a}",
 ];
 
 fn reply_class(r: &str) -> String {
@@ -492,7 +609,149 @@ fn emit_all(sink: &mut Sink, rule: &str, aliases: &[(String, String)], inputs: &
     }
 }
 
+/// separators: characters no oracle pattern can match, so that the split of the input is unique.
+const SEP: &[char] = &[';', '=', '#', '~', ',', '!', '|', '/'];
+/// patterns whose language avoids the separators (and `.`-like wildcards).
+const OPATS: &[(&str, &[&str])] = &[
+    ("[0-9]+", &["7", "2024", "007", "10"]),
+    ("[a-z]+", &["a", "abc", "true"]),
+    ("(?:ab|cd)+", &["ab", "cdab"]),
+    ("a|b", &["a", "b"]),
+    ("x*", &["", "x", "xxx"]),
+    ("[A-Z][a-z]*", &["A", "Hello", "True"]),
+    ("-?[0-9]+", &["-5", "12", "-0"]),
+    ("[+-]?[0-9]+(?:\\.[0-9]+)?", &["1.5", "-2", "+0.25", "3.0", "99999999999999999999"]),
+    ("(?:NaN|inf|-inf|[0-9]+)", &["NaN", "inf", "-inf", "5"]),
+    ("[a-zA-Z]+", &["True", "FALSE", "x"]),
+];
+const ODESTS: &[&str] = &["x", "y", "z", "a.b", "a.c", "k", "x", "x", "a"];
+
+fn gen_cap_rule(rng: &mut Rng, same_dest: bool) -> (Vec<Item>, Vec<(String, String)>) {
+    let mut items = Vec::new();
+    let mut aliases: Vec<(String, String)> = Vec::new();
+    let n_ph = if same_dest { 9 + rng.below(5) } else { 1 + rng.below(4) };
+    if rng.chance(1, 2) {
+        items.push(Item::Lit(gen_lit(rng, 3)));
+    }
+    for k in 0..n_ph {
+        if k > 0 {
+            // a literal with at least one separator
+            let mut l = gen_lit(rng, 2);
+            l.push(*rng.pick(SEP));
+            if rng.chance(1, 3) {
+                l.push_str(&gen_lit(rng, 2));
+            }
+            items.push(Item::Lit(l));
+        }
+        let name = *rng.pick(ALIAS_NAMES);
+        let samples = match aliases.iter().find(|(k, _)| k == name) {
+            Some((_, d)) => OPATS.iter().find(|p| p.0 == d).unwrap().1,
+            None => {
+                let p = rng.pick(OPATS);
+                aliases.push((name.to_string(), p.0.to_string()));
+                p.1
+            }
+        };
+        let (dest, filter) = if same_dest {
+            ("x".to_string(), String::new())
+        } else {
+            match rng.below(8) {
+                0 => (String::new(), String::new()),
+                1 => (String::new(), rng.pick(FILTERS).to_string()),
+                2 | 3 | 4 => (rng.pick(ODESTS).to_string(), String::new()),
+                _ => (rng.pick(ODESTS).to_string(), rng.pick(FILTERS).to_string()),
+            }
+        };
+        items.push(Item::Ph { name: name.to_string(), dest, filter, sample: rng.pick(samples).to_string() });
+    }
+    if rng.chance(1, 2) {
+        let mut l = String::from(*rng.pick(SEP));
+        l.push_str(&gen_lit(rng, 2));
+        items.push(Item::Lit(l));
+    }
+    (items, aliases)
+}
+
+const ANCH_VERB: &[&str] = &["a+", "[a-c]+", "x?y", "a|b", "(?:ab|cd)*x", ".*", "(a|b)", "a.c", "[|]", "\\|", "^a$", "b*?"];
+const ANCH_DEFS: &[&str] = &["a|b", "[0-9]+", "ab|cd", "(?:a|b)", "x*", "[a-z]+", "a|", "[a|b]"];
+const ANCH_INPUTS: &[&str] = &["", "a", "b", "ab", "ax", "xb", "xa", "xay", "abcd", "cd", "y", "xy", "7", "a7", "|", "a\nb", "aab"];
+
+fn gen_anch_rule(rng: &mut Rng) -> (Vec<Item>, Vec<(String, String)>, String) {
+    let mut items = Vec::new();
+    let mut aliases: Vec<(String, String)> = Vec::new();
+    let mut good = String::new();
+    for _ in 0..1 + rng.below(3) {
+        match rng.below(4) {
+            0 => items.push(Item::Verb(rng.pick(ANCH_VERB).to_string())),
+            1 => {
+                let l: String = gen_lit(rng, 2).chars().filter(char::is_ascii).collect();
+                good.push_str(&l);
+                items.push(Item::Lit(l));
+            }
+            _ => {
+                let name = *rng.pick(&ALIAS_NAMES[..4]);
+                if !aliases.iter().any(|(k, _)| k == name) {
+                    aliases.push((name.to_string(), rng.pick(ANCH_DEFS).to_string()));
+                }
+                let dest = if rng.chance(1, 2) { String::new() } else { "x".to_string() };
+                items.push(Item::Ph { name: name.to_string(), dest, filter: String::new(), sample: String::new() });
+                good.push_str(*rng.pick(&["a", "b", "7", "ab", ""][..]));
+            }
+        }
+    }
+    let input = if rng.chance(1, 2) { good } else { rng.pick(ANCH_INPUTS).replace("\\n", "\n") };
+    if build_rule(&items).0.is_empty() {
+        // an empty rule is dropped by parse_grok_rules (by design): not a rule
+        items.push(Item::Lit("a".into()));
+    }
+    (items, aliases, input)
+}
+
+fn generate_oracle(sink: &mut Sink, rng: &mut Rng, n: u64) {
+    for i in 0..n {
+        match i % 4 {
+            0 => {
+                let mut s = gen_lit(rng, 8);
+                if s.is_empty() {
+                    s.push(*rng.pick(LIT));
+                }
+                let t = match rng.below(3) {
+                    0 => s.clone(),
+                    1 => mutate(rng, &s),
+                    _ => gen_lit(rng, 3),
+                };
+                if let Some(r) = sink.emit("o.c32.lit", &[hx(&s), hx(&t)]) {
+                    sink.count(if s == t { "c32:o.lit:own_text" } else { "c32:o.lit:other_text" });
+                    let _ = r;
+                }
+            }
+            1 => {
+                let (mut rule, aliases) = gen_graph(rng);
+                if rng.chance(1, 60) {
+                    rule.push_str("%{d:x:nullIf()}");
+                }
+                if let Some(r) = sink.emit("o.c32.cyc", &[hx(&rule), show_aliases(&aliases)]) {
+                    sink.count(&format!("c32:o.cyc:{}", r.obs.first().map(String::as_str).unwrap_or("")));
+                }
+            }
+            2 => {
+                let (items, aliases) = gen_cap_rule(rng, i % 40 == 2);
+                if let Some(r) = sink.emit("o.c32.cap", &[show_items(&items), show_aliases(&aliases)]) {
+                    sink.count(&format!("c32:o.cap:{}", r.obs.first().map(String::as_str).unwrap_or("")));
+                }
+            }
+            _ => {
+                let (items, aliases, input) = gen_anch_rule(rng);
+                if let Some(r) = sink.emit("o.c32.anch", &[show_items(&items), show_aliases(&aliases), hx(&input)]) {
+                    sink.count(&format!("c32:o.anch:{}", r.obs.first().map(String::as_str).unwrap_or("")));
+                }
+            }
+        }
+    }
+}
+
 pub fn generate(sink: &mut Sink, rng: &mut Rng, n: u64) {
+    generate_oracle(sink, rng, n / 2);
     // fixed edge cases first
     let a1 = vec![("a".to_string(), "[a-z]+".to_string())];
     for m in MALFORMED {
